@@ -217,3 +217,33 @@ Theorem formats_same_members c m :
   | None => format_json c m = None /\ format_text c m = None
   end.
 Proof. unfold format_json, format_text. destruct (format_members c m (cFields c)); split; reflexivity. Qed.
+
+(* ---- the partition key is a function of exactly the configured key fields ---- *)
+(* two messages that agree on the text of every key field get the same key, whatever else differs *)
+Theorem key_fields_only c m m' :
+  (forall s, In s (cKeys c) -> key_text c m s = key_text c m' s) -> msg_key c m = msg_key c m'.
+Proof.
+  intros H. unfold msg_key. destruct (cKeys c) as [|k ks] eqn:Ek; [reflexivity|].
+  assert (E : key_texts c m (k :: ks) = key_texts c m' (k :: ks)).
+  { clear Ek. revert H. generalize (k :: ks). intros l. induction l as [|s r IH]; intros H; [reflexivity|].
+    cbn [key_texts]. rewrite (H s (or_introl eq_refl)), IH; [reflexivity|].
+    intros s' Hs'. apply H. right. exact Hs'. }
+  rewrite E. reflexivity.
+Qed.
+
+(* the text of a key field that is a column of the struct depends on that column alone *)
+Lemma key_text_struct c m s j g col k :
+  struct_by_go (remap (cCustoms c) s) = Some (j, g, col, k) -> key_text c m s = Some (show_v (struct_value m g col k)).
+Proof. intros H. unfold key_text. rewrite H. reflexivity. Qed.
+
+(* no key fields: no key; otherwise four bytes *)
+Lemma enc_be_length n : forall v, length (enc_be n v) = n.
+Proof. induction n as [|n IH]; intros v; [reflexivity|]. cbn [enc_be]. rewrite app_length, IH. cbn [length]. lia. Qed.
+
+Theorem key_shape c m k :
+  msg_key c m = Some k -> (cKeys c = [] /\ k = []) \/ (cKeys c <> [] /\ length k = 4%nat).
+Proof.
+  unfold msg_key. destruct (cKeys c) as [|x r]; intros H.
+  - left. inversion H. split; reflexivity.
+  - right. destruct (key_texts c m (x :: r)); [|discriminate]. inversion H. split; [discriminate|reflexivity].
+Qed.
